@@ -68,14 +68,32 @@ def shim_ctx(case, prop, res, h, t, disk, model, seed):
 
 def _benign_leftovers(errors):
     """True when everything the raw parser reports about a recovered store is an unreferenced
-    leftover (a node or stub the interrupted request appended but never linked): a store the
-    library can go on writing to.  A head whose tail never arrived, a partial block and the like
-    are not: appending behind them glues foreign blocks to a stem."""
+    leftover (a node or stub the interrupted request appended but never linked, possibly a
+    long stem's head whose tail blocks never arrived): a store the library can go on writing
+    to.  The one head that is always reachable is the store's first node: when *its* tail is
+    missing, appending behind it glues foreign blocks to its stem, and the store is not continued."""
+    import re as _re
+
+    orphans, dangling = set(), set()
+    rest = []
     for e in errors:
-        if "is referenced by nothing" in e or "is on no list" in e or e == "odd number of stubs":
+        m = _re.match(r"block (\d+) \(stem .*\) is referenced by nothing$", e, _re.S)
+        if m:
+            orphans.add(int(m.group(1)))
+            continue
+        m = _re.match(r"head (\d+): tail runs past end of store$", e)
+        if m:
+            dangling.add(int(m.group(1)))
+            continue
+        if "is on no list" in e or e == "odd number of stubs":
+            continue
+        rest.append(e)
+    for e in rest:
+        m = _re.match(r"block (\d+): stem .* is not one closed stem$", e, _re.S)
+        if m and int(m.group(1)) in dangling:
             continue
         return False
-    return True
+    return dangling <= orphans
 
 
 def run_recovered(case, prop, sweep, direction="out"):
